@@ -81,6 +81,30 @@ def accounting_cases(rng, tier):
             if r.ok and r.requests != [8]:
                 c.fail(f"format 4 encipher requested {r.requests}")
             yield c
+    # one object: unwrap a block, then wrap the same key (the key-translation use) twice, then re-key and wrap again - every wrap
+    # draws its pad afresh from the operating system, in one request, and the pad is exactly what was drawn
+    from props.tr31util import Session, genuine
+    for ver in "ABCD":
+        bs, ksizes, ml = VERS[ver]
+        for _ in range(2 * reps):
+            kbpk, h, key, kb = genuine(rng, ver, nblocks=rng.choice([0, 1]), keylen=rng.choice([8, 16, 24]), mask=rng.choice([None, 40]))
+            c = Case(f"accounting:unwrap-then-wrap:{ver}", {"key": len(key)})
+            se = Session(c, kbpk, None)
+            u = se.unwrap(kb)
+            seen = [kb]
+            for step in range(3):
+                if step == 2:
+                    se.setkbpk(rb(rng, len(kbpk)))
+                w = se.wrap(key, rng.choice([None, None, 40]) if step else None)
+                if not w.ok:
+                    c.fail(f"wrap after unwrap raised {w.err}")
+                    break
+                if len(w.requests) != 1 or not w.entropy:
+                    c.fail(f"wrap after unwrap requested OS entropy {w.requests}, expected one request")
+                if w.value in seen:
+                    c.fail("wrap after unwrap reproduced an earlier key block byte for byte (pad not drawn afresh)")
+                seen.append(w.value)
+            yield c
     # chosen values of the operating system's entropy (extremes and rejection boundaries of the choice map, constant pads): every
     # admissible fill value must come out exactly as the draws dictate - all-A, all-F, fills reached only through rejected draws
     def crafted(n):
